@@ -759,3 +759,8 @@ Definition decl_guard_in_table (s : saver) : list (list string) :=
 
 Lemma decl_guard_table : forall s, sv_declares s = true -> decl_guard_in_table s = [["NAME_NONEMPTY"]]%string.
 Proof. destruct s; vm_compute; intro H; try reflexivity; discriminate. Qed.
+
+Lemma guards_as_in_source : forall s,
+  sv_guarded s = guarded_in_table s
+  /\ (sv_declares s = true -> decl_guard_in_table s = [["NAME_NONEMPTY"]]%string).
+Proof. intro s. split; [apply sv_guarded_table | apply decl_guard_table]. Qed.
